@@ -39,6 +39,9 @@ var glPackages = []struct{ dir, name string }{
 	{"bscript", "bscript"},
 	{"sighash", "sighash"},
 	{".", "bt"},
+	{"unlocker", "unlocker"},
+	{"ord", "ord"},
+	{"bscript/interpreter/debug", "debug"},
 }
 
 // methods that do not modify their receiver (math/big, regexp, error, time, this library's flags)
